@@ -177,6 +177,20 @@ static void ref_expand(const char *s, sb_t *o, int depth)
     }
 }
 
+/* the reference expander for other engines (C09 checks that delivered values are expanded): result in a malloc'ed string,
+   *dc set when the text uses a construct whose value the statement leaves open */
+char *conf_ref_expand(const char *text, int *dc)
+{
+    sb_t o = { 0 };
+    char *in = strdup(text);
+    dont_care = 0; len_unknown = 0;
+    sb_put(&o, "", 0);
+    ref_expand(in, &o, 0);
+    free(in);
+    *dc = dont_care || o.n >= CONFIG_BUFF - 1;
+    return o.b;
+}
+
 /* ------------------------------------------------------------------ executor */
 #define MAXRES 64
 static char *pass_a[MAXRES];
@@ -186,7 +200,7 @@ static void one_pass(const plan_t *p, int pass)
     int nres = 0;
     memset(vars, 0, sizeof(vars));
     store_uncertain = 0;
-    tmpdir_odd = plan_get(p, "tmpdir", 0) >= 2;
+    tmpdir_odd = plan_get(p, "tmpdir", 0) == 2 || plan_get(p, "tmpdir", 0) == 3;
     conf_env_setup(p);
     sa_set_fill(pass ? FILL_FF : (int)plan_get(p, "alloc.fill", FILL_A5));
     spifconf_init_subsystem();
@@ -325,7 +339,7 @@ static void gen_c10(plan_t *p, rng_t *r)
     if (rng_chance(r, 1, 3)) { o = plan_op(p, 0, "env", 1, (long)rng_chance(r, 1, 2)); op_str(o, "HOME", 4); op_str2(o, "", 0); }
     if (rng_chance(r, 1, 3)) plan_op(p, 0, "builtin", 1, (long)rng_range(r, 1, 5));
     if (rng_chance(r, 1, 10)) { static const int el[] = { 120, 127, 128, 300, 4096, 20470, 20478, 20479, 20480, 20481, 30000, 65000 }; plan_knob(p, rng_chance(r, 1, 2) ? "env.v1len" : "env.homelen", el[rng_below(r, 12)]); }
-    if (rng_chance(r, 1, 12)) { static const int tl[] = { 200, 230, 238, 239, 240, 241, 242, 243, 244, 245, 250, 256, 300 }; plan_knob(p, "tmpdir", rng_range(r, 1, 3)); plan_knob(p, "tmpdir.len", tl[rng_below(r, 13)]); }
+    if (rng_chance(r, 1, 12)) { static const int tl[] = { 200, 230, 238, 239, 240, 241, 242, 243, 244, 245, 250, 256, 300 }; plan_knob(p, "tmpdir", rng_range(r, 1, 5)); plan_knob(p, "tmpdir.len", tl[rng_below(r, 13)]); }
     if (rng_chance(r, 1, 10)) {
         /* a directory whose listing is as long as the line buffer, give or take a few bytes */
         static const int nls[] = { 255, 255, 254, 200, 128, 100 };
@@ -338,7 +352,7 @@ static void gen_c10(plan_t *p, rng_t *r)
         gvn = 0; gv[0] = 0;
         if (rng_chance(r, 1, 25)) {
             /* a command just as long as its buffer allows: "command >tempfile" of CONFIG_BUFF bytes, give or take a few */
-            long td = plan_get(p, "tmpdir", 0), outlen = (td >= 2 ? plan_get(p, "tmpdir.len", 240) : 4) + 1 + 17;       /* "<dir>/Eterm-exec-XXXXXX" */
+            long td = plan_get(p, "tmpdir", 0), outlen = (td == 2 || td == 3 ? plan_get(p, "tmpdir.len", 240) : 4) + 1 + 17;       /* "<dir>/Eterm-exec-XXXXXX" */
             long want = CONFIG_BUFF - 2 - outlen + rng_range(r, -4, 3);
             if (want > 20 && want < CONFIG_BUFF - 10) {
                 ga("%%exec(echo ");
